@@ -114,7 +114,6 @@ type Exec struct {
 	usedCtr   map[string]bool // callee contracts used
 	noSafety  bool            // do not emit implicit safety obligations (only for trusted replays)
 	retHook   func(st *State, fr *Frame, rets []Value)
-	ownCheck  bool
 	inputObjs map[int]bool
 	lenient   bool // unknown externals return unconstrained values (package init evaluation only)
 	skipDefer bool // deferred recover-closures are skipped (see verifyFunc)
@@ -1652,6 +1651,10 @@ func (ex *Exec) loopBackEdge(st *State, fr *Frame, li *loopInfo, cut *cutInfo, p
 	for i, inv := range ex.loopInvariants(fr, li, lc) {
 		g := ex.evalBoolClause(st, env, inv)
 		ex.emit(st, fr, fmt.Sprintf("inv/loop%d/preserve", li.ordinal), fmt.Sprint(i+1), inv.Text, g, inv.Props, li.header.Instrs[0].Pos())
+	}
+	// ownership is an implicit loop invariant: nothing stored during this iteration aliases the input
+	if ex.topFC != nil && len(ex.topFC.Own) > 0 && fr.depth == 0 {
+		ex.ownCheck(st, fr, nil, fmt.Sprintf("/loop%d", li.ordinal))
 	}
 	v := ex.loopVariant(fr, li, lc)
 	if lc != nil && lc.Diverges {
